@@ -48,18 +48,20 @@ def materialise(v: dict, root: str) -> str:
     body = [f"  {d['name']}:"]
     for i in range(pl["comments"]):
         body.append(f"    # comment {i} about {d['name']}: id {d['id']} fields int32")
-    body.append(f"    id: {ident}" + ("   # the id" if pl["comments"] else ""))
+    idline = f"    id: {ident}" + ("   # the id" if pl["comments"] else "")
+    flines = []
     if not d["fields"]:
-        body.append("    fields: null")
+        flines.append("    fields: null")
     else:
-        body.append("    fields:")
+        flines.append("    fields:")
         for fn, ft in d["fields"]:
             if pl["blanks"]:
-                body.append("")
-            body.append(f"      {fn}: {ft}" + ("  # a field" if pl["comments"] > 1 else ""))
+                flines.append("")
+            flines.append(f"      {fn}: {ft}" + ("  # a field" if pl["comments"] > 1 else ""))
+    body += (flines + [idline]) if pl.get("keyorder", 0) else ([idline] + flines)
     if d["fields"]:
         # a second message that takes its field list from the definition under edit (the documented `fields: OTHER` form)
-        body += ["  REUSE_M:", f"    id: {d['id'] + 500}", f"    fields: {d['name']}"]
+        body += ["  REUSE_M:"] + ([f"    fields: {d['name']}", f"    id: {d['id'] + 500}"] if pl.get("keyorder", 0) else [f"    id: {d['id'] + 500}", f"    fields: {d['name']}"])
     unrelated = ["  UNREL%d:\n    id: %d\n    fields:\n      q: int16\n      r: int16" % (i, 2000 + i) for i in range(pl["unrelated"])]
     sbody = "      x: int32\n" + ("      y: int32\n" if pl.get("structbody", 0) else "")
     other = "struct_defs:\n  OTHER_S:\n    fields:\n" + sbody + "constants:\n  OTHER_C: 3\n"
